@@ -99,6 +99,29 @@ func verifTemplate(id string, n int) string {
 	}
 }
 
+// verifTemplateT: further families for the thorough tier (lists, q-values,
+// wildcards, parameters, structured suffixes, case).
+func verifTemplateT(id string) string {
+	switch nondetChoice(id+"-tmplT", 8) {
+	case 0:
+		return "application/json, " + nondetString(id+"-second", 2)
+	case 1:
+		return "*/*;q=" + nondetString(id+"-q", 2)
+	case 2:
+		return "application/gob;" + nondetString(id+"-param", 2) + "=1"
+	case 3:
+		return "text/html" + nondetString(id+"-tail", 1) + "charset=utf-8"
+	case 4:
+		return "application/xm" + nondetString(id+"-last", 1) + nondetStringUpTo(id+"-more", 1)
+	case 5:
+		return nondetString(id+"-type", 2) + "/plain"
+	case 6:
+		return "application/vnd.api+" + nondetString(id+"-sfx", 1) + "son"
+	default:
+		return "Text/" + nondetString(id+"-sub", 1) + "LAIN"
+	}
+}
+
 func verifRespRoundTrip(accept, designed, preset string) (encKind, decKind int, hdr string, w *verifRW, enc Encoder) {
 	w = &verifRW{h: http.Header{}}
 	if preset != "" {
@@ -122,7 +145,7 @@ func verifRespRoundTrip(accept, designed, preset string) (encKind, decKind int, 
 func VerifC15_AcceptNegotiation() { verifAcceptNegotiation(2) }
 
 // thorough: wider holes
-func VerifC15T_AcceptNegotiation3() { verifAcceptNegotiation(3) }
+func VerifC15T_AcceptNegotiationMore() { verifAcceptNegotiation(0) }
 
 // verifKindOf: the encoder kind documented for an exact media type.
 func verifKindOf(mt string) int {
@@ -140,7 +163,12 @@ func verifKindOf(mt string) int {
 }
 
 func verifAcceptNegotiation(n int) {
-	accept := verifTemplate("accept", n)
+	var accept string
+	if n == 0 {
+		accept = verifTemplateT("accept")
+	} else {
+		accept = verifTemplate("accept", n)
+	}
 	ek, dk, hdr, _, _ := verifRespRoundTrip(accept, "", "")
 	verifObserve("enc", ek)
 	verifObserve("dec", dk)
@@ -167,10 +195,15 @@ func verifAcceptNegotiation(n int) {
 // VerifC15_DesignedContentType: content type fixed in the design (parsable).
 func VerifC15_DesignedContentType() { verifDesigned(2) }
 
-func VerifC15T_DesignedContentType3() { verifDesigned(3) }
+func VerifC15T_DesignedContentTypeMore() { verifDesigned(0) }
 
 func verifDesigned(n int) {
-	designed := verifTemplate("designed", n)
+	var designed string
+	if n == 0 {
+		designed = verifTemplateT("designed")
+	} else {
+		designed = verifTemplate("designed", n)
+	}
 	verifAssume(designed != "")
 	accept := ""
 	if nondetBool("with-accept") {
@@ -252,10 +285,15 @@ func VerifC15_TextRoundTrip() {
 // decoder, unsupported ones are refused and map to 415.
 func VerifC15_RequestDecoder() { verifRequestDecoder(2) }
 
-func VerifC15T_RequestDecoder3() { verifRequestDecoder(3) }
+func VerifC15T_RequestDecoderMore() { verifRequestDecoder(0) }
 
 func verifRequestDecoder(n int) {
-	ct := verifTemplate("ct", n)
+	var ct string
+	if n == 0 {
+		ct = verifTemplateT("ct")
+	} else {
+		ct = verifTemplate("ct", n)
+	}
 	r := &http.Request{Header: http.Header{}, Body: io.NopCloser(strings.NewReader("x"))}
 	if ct != "" {
 		r.Header.Set("Content-Type", ct)
